@@ -429,6 +429,13 @@ def c07_scenario(ctx, checks, kind, sample, data):
         v("uninterpreted tag data lost by load+save", {"before": repr(unk0)[:200], "after": repr(unk1)[:200]})
     if w1 is not None and foreign_preserved(kind, w0, w1):
         v("foreign container elements changed by load+save")
+    if w1 is not None and kind.style in ("ape", "vc", "asf"):
+        # the independent decoding of the file (keys, value KINDS, values) is the same before and after
+        i0, i1 = KM.indep_decode(kind, w0), KM.indep_decode(kind, w1)
+        if kind.style == "ape":
+            i0, i1 = i0 or None, i1 or None
+        if i0 != i1:
+            v("independent decoding of the file differs after an unmodified load+save", {"before": repr(i0)[:200], "after": repr(i1)[:200]})
     if w1 is not None:
         u0, u1 = uninterpreted_raw(kind, w0, o), uninterpreted_raw(kind, w1, o)
         lost = list(u0)
